@@ -18,9 +18,12 @@ if [ "${SKIP_SUITE:-0}" != 1 ]; then
   python3 /verif/tools/check_baseline.py /tmp/seed_suite.xml | head -8
 fi
 cd /verif
+# evidence written while a seeded change is applied must never replace the record of the unchanged tree
+EVB=$(mktemp -d /tmp/evid_backup_XXXX); cp -a /verif/evidence/. $EVB/
 git -C /repo apply $D/patch.diff || { echo "PATCH DOES NOT APPLY TO /repo"; exit 3; }
 for P in "$@"; do
   ./check $P quick 2>&1 | grep -E "^VIOLATION|^KNOWN|^\[$P" | cut -c1-400
 done
 git -C /repo checkout -- .
+cp -a $EVB/. /verif/evidence/; rm -rf $EVB
 echo "reverted: $(git -C /repo status --short | wc -l) modified files"
